@@ -783,6 +783,28 @@ class Ref:
             if isinstance(x, RDS):
                 return self.map_measures(x, lambda mv, g: self.s_round(op, mv, d, g))
             return self.s_round(op, x, d, TRUE)
+        if op == "substr":
+            # substr(s, start, length): 1-based start (default 1), length (default: to the end); null operand -> null
+            x = self.ev(node.children[0])
+            ps = []
+            for p_ in node.params:
+                ps.append(None if (type(p_).__name__ == "ID" and p_.value == "_") else self.ev(p_))
+            while len(ps) < 2:
+                ps.append(None)
+            for p_ in ps:
+                if p_ is not None and not z3.is_int_value(z3.simplify(p_[0].val)):
+                    raise Unsupported("oracle: substr with a non-constant position")
+            start = 1 if ps[0] is None else z3.simplify(ps[0][0].val).as_long()
+            length = None if ps[1] is None else z3.simplify(ps[1][0].val).as_long()
+            if start < 1 or (length is not None and length < 0):
+                raise Unsupported("oracle: substr corner")
+
+            def f(mv, g):
+                sv_ = self.to_str(mv[0])
+                return SV("str", sv_.null, z3.SubString(sv_.val, start - 1, z3.Length(sv_.val) if length is None else length)), "String"
+            if isinstance(x, RDS):
+                return self.map_measures(x, f)
+            return f(x, TRUE)
         if op == "nvl":
             return self.n_BinOp(type("B", (), dict(op="nvl", left=node.children[0], right=node.params[0]))())
         if op == "cast":
@@ -846,6 +868,25 @@ class Ref:
             return self.s_between(x, lo, hi)
         if op in ("union", "intersect", "setdiff", "symdiff"):
             return self.setop(op, [self.ev(c) for c in node.children])
+        if op == "exists_in":
+            L, R = self.ev(node.children[0]), self.ev(node.children[1])
+            if not (isinstance(L, RDS) and isinstance(R, RDS)):
+                raise Unsupported("oracle: exists_in operands")
+            common = [i for i in L.ids() if i in R.ids()]
+            if not common:
+                raise Unsupported("oracle: exists_in without common identifiers")
+            retain = None
+            if len(node.children) >= 3:
+                rn = node.children[2]
+                retain = rn.value if type(rn).__name__ == "Constant" else None
+            rows = []
+            for r in L.rows:
+                hit = z3.Or(*[z3.And(o.present, *[same(r.cols[i], o.cols[i]) for i in common]) for o in R.rows]) if R.rows else FALSE
+                cols = {i: r.cols[i] for i in L.ids()}
+                cols["bool_var"] = SV("bool", FALSE, hit)
+                pres = r.present if retain is None else z3.And(r.present, hit if retain else z3.Not(hit))
+                rows.append(Row(pres, cols, r.ord))
+            return RDS([L.comp(i) for i in L.ids()] + [("bool_var", "Boolean", "Measure")], rows)
         raise Unsupported("oracle MulOp %s" % op)
 
     # ---- set operators: keyed semantics
